@@ -332,3 +332,11 @@ def run(ctx):
                 "R3.dfree: release summaries of the metadata destructors are missing")
     new_skips = sorted(set(skipped) - BUDGET_SKIPS)
     ctx.require(not new_skips, "R3.dfree: %s exceed(s) the state budget and would be silently excluded" % ", ".join(new_skips))
+    if ctx.tier == "thorough":
+        # the burst-buffer driver (not compiled by the baseline build) and the utilities
+        for g, known in (("bb", set()), ("util", {"vardata", "do_ncdump"})):
+            pg = ctx.program(groups=[g])
+            n2, _, sk2 = r3free.check(ctx, pg, "R3.dfree", lambda fn: True)
+            ctx.require(n2 >= 20, "R3.dfree(%s): only %d functions analysed" % (g, n2))
+            extra = sorted(set(sk2) - known)
+            ctx.require(not extra, "R3.dfree(%s): %s exceed(s) the state budget" % (g, ", ".join(extra)))
